@@ -619,6 +619,23 @@ fn extract<'tcx>(tcx: TyCtxt<'tcx>, krate: &str, ctypes: &[String]) -> String {
                         ),
                     );
                 }
+                {
+                    // names of the generic parameters in declaration order (parents first), so that
+                    // a call site's generic arguments can be matched with `const N` uses in the body
+                    let mut names: Vec<J> = Vec::new();
+                    let mut chain = Vec::new();
+                    let mut g = Some(tcx.generics_of(did));
+                    while let Some(gen) = g {
+                        chain.push(gen);
+                        g = gen.parent.map(|p| tcx.generics_of(p));
+                    }
+                    for gen in chain.iter().rev() {
+                        for prm in gen.own_params.iter() {
+                            names.push(J::s(prm.name.as_str()));
+                        }
+                    }
+                    f.set("generics", J::Arr(names));
+                }
                 if kind == DefKind::Closure {
                     let root_id = tcx.typeck_root_def_id(did);
                     f.set("root", J::s(&tcx.def_path_str(root_id)));
